@@ -28,8 +28,8 @@
 //   - a proof that verifies against the root of the current items must be for
 //     items[index] (VIOL:unsound) with total = len(items) (VIOL:total-malleable);
 //   - nothing verifies against an empty root (VIOL:nil-root — fixed in /repo 96b4d2262f for Verify and
-//     TxProof.Validate, a regression if it returns; VIOL:nil-root-valueop for the still-open
-//     SimpleValueOp + ProofOperators.Verify path);
+//     TxProof.Validate, a regression if it returns; VIOL:nil-root-valueop for the
+//     SimpleValueOp + ProofOperators.Verify path, fixed in /repo 4d9045b816 — both are regressions if they return);
 //   - Verify accepts exactly when the oracle's strict reference check accepts
 //     (VIOL:verify-accepts / VIOL:verify-rejects).
 package main
@@ -693,6 +693,8 @@ func runValueOp(key, value, root []byte, sp *merkle.SimpleProof) string {
 			return "ok"
 		case strings.Contains(err.Error(), "leaf hash mismatch"):
 			return "err:leafhash"
+		case strings.Contains(err.Error(), "invalid proof"):
+			return "err:invalid"
 		case strings.Contains(err.Error(), "Calculated root hash is invalid"):
 			return "err:root"
 		}
@@ -702,6 +704,9 @@ func runValueOp(key, value, root []byte, sp *merkle.SimpleProof) string {
 	if err != nil {
 		if strings.Contains(err.Error(), "leaf hash mismatch") {
 			return "err:leafhash"
+		}
+		if strings.Contains(err.Error(), "invalid proof") {
+			return "err:invalid"
 		}
 		return "err:other"
 	}
